@@ -47,6 +47,102 @@ pub fn contract_uuid_roundtrip(bytes: [u8; 16], extra: i32) {
     assert!(data[3] == i32::from_be_bytes([bytes[12], bytes[13], bytes[14], bytes[15]]));
 }
 
+// ---- sampled contract: multi-part snapshot transfer (C12) ---------------------------------------------------------
+// delta_chunks splits, DeltaReceiver reassembles: for every delivery order with duplicates, and with an unfinished
+// transfer superseded by a newer one, a complete transfer is handed out exactly once, with exactly the bytes, tick,
+// base tick and crc that were split, without warning; parts of finished or superseded ticks are refused.
+#[cfg(not(kani))]
+pub mod sampled_parts {
+    use crate::receiver::DeltaReceiver;
+    use crate::receiver::Error;
+    use crate::snap::delta_chunks;
+    use libtw2_gamenet_snap::SnapMsg;
+
+    pub struct Transfer {
+        pub tick: i32,
+        pub base: i32,
+        pub data: Vec<u8>,
+        pub crc: i32,
+        /// delivery order as indices into the parts (taken modulo the number of parts; repeats = duplicates)
+        pub order: Vec<usize>,
+        /// deliver every part (after `order`) or abandon the transfer
+        pub complete: bool,
+    }
+    pub fn contract_parts_transfer(transfers: &[Transfer]) {
+        let mut r = DeltaReceiver::new();
+        let mut warnings: Vec<crate::receiver::Warning> = Vec::new();
+        for t in transfers {
+            let parts: Vec<SnapMsg> = delta_chunks(t.tick, t.base, &t.data, t.crc).collect();
+            assert!(!parts.is_empty());
+            // what was split covers the data exactly, in order
+            let mut joined: Vec<u8> = Vec::new();
+            for p in &parts {
+                match p {
+                    SnapMsg::Snap(s) => {
+                        assert!(s.data.len() <= 900 && !s.data.is_empty(), "part size");
+                        joined.extend_from_slice(s.data)
+                    }
+                    SnapMsg::SnapSingle(s) => joined.extend_from_slice(s.data),
+                    SnapMsg::SnapEmpty(_) => {}
+                }
+            }
+            assert!(joined == t.data, "the parts do not add up to the data");
+            let mut order: Vec<usize> = t.order.iter().map(|i| i % parts.len()).collect();
+            if t.complete {
+                for i in 0..parts.len() {
+                    order.push(i);
+                }
+            } else if parts.len() > 1 {
+                // abandon: make sure at least one part stays undelivered
+                let keep_out = order.first().copied().unwrap_or(0);
+                order.retain(|&i| i != keep_out);
+            } else {
+                continue;
+            }
+            let mut seen = vec![false; parts.len()];
+            let mut done = false;
+            for &i in &order {
+                let before = seen.iter().filter(|&&b| b).count();
+                let res = match parts[i] {
+                    SnapMsg::Snap(s) => r.snap(&mut warnings, s).map(|o| o.map(|d| (d.tick, d.delta_tick, d.data_and_crc.map(|(d, c)| (d.to_vec(), c))))),
+                    SnapMsg::SnapSingle(s) => r.snap_single(&mut warnings, s).map(|o| o.map(|d| (d.tick, d.delta_tick, d.data_and_crc.map(|(d, c)| (d.to_vec(), c))))),
+                    SnapMsg::SnapEmpty(s) => r.snap_empty(&mut warnings, s).map(|o| o.map(|d| (d.tick, d.delta_tick, d.data_and_crc.map(|(d, c)| (d.to_vec(), c))))),
+                };
+                if done {
+                    assert!(matches!(res, Err(Error::OldDelta)), "a part of a finished transfer must be refused as old");
+                    continue;
+                }
+                if seen[i] {
+                    assert!(matches!(res, Err(Error::DuplicatePart)), "a repeated part must be refused as duplicate");
+                    continue;
+                }
+                seen[i] = true;
+                if before + 1 < parts.len() {
+                    assert!(matches!(res, Ok(None)), "an incomplete transfer must not be handed out");
+                } else {
+                    match res {
+                        Ok(Some((tick, base, dc))) => {
+                            assert!(tick == t.tick, "tick");
+                            assert!(base == t.base, "base tick");
+                            if t.data.is_empty() {
+                                assert!(dc.is_none());
+                            } else {
+                                let (d, c) = dc.expect("data expected");
+                                assert!(c == t.crc, "crc");
+                                assert!(d == t.data, "reassembled bytes differ from the bytes that were split");
+                            }
+                        }
+                        other => panic!("complete transfer not handed out: {:?}", other.map(|o| o.is_some())),
+                    }
+                    done = true;
+                }
+            }
+            assert!(done == t.complete);
+        }
+        assert!(warnings.is_empty(), "warnings on consistent transfers");
+    }
+}
+
 pub mod proofs {
     use super::draw;
     use super::draw::harness;
@@ -105,6 +201,36 @@ pub mod proofs {
         }
         draw::reached();
         contract_wire_roundtrip(&items);
+    });
+
+    #[cfg(not(kani))]
+    harness!(sampled_snap_parts_transfer, unwind = 1, {
+        use super::sampled_parts::*;
+        let mut transfers = Vec::new();
+        let mut tick = draw::i32() / 2;
+        for _ in 0..(1 + draw::usize_le(3)) {
+            tick = tick.wrapping_add(1 + draw::usize_le(40) as i32);
+            if tick == i32::MAX {
+                break;
+            }
+            let len = match draw::usize_le(9) {
+                0 => 0,
+                1 => 1,
+                2 => 899,
+                3 => 900,
+                4 => 901,
+                5 => 1800,
+                6 => 2700,
+                7 => 900 * (1 + draw::usize_le(5)),
+                _ => draw::usize_le(4000),
+            };
+            let seed = draw::u8();
+            let data: Vec<u8> = (0..len).map(|i| (i as u8).wrapping_mul(31).wrapping_add(seed)).collect();
+            let order: Vec<usize> = (0..draw::usize_le(6)).map(|_| draw::usize_le(7)).collect();
+            transfers.push(Transfer { tick, base: tick.wrapping_sub(draw::usize_le(60) as i32), data, crc: draw::i32(), order, complete: draw::usize_le(3) != 0 });
+        }
+        draw::reached();
+        contract_parts_transfer(&transfers);
     });
 
 }
